@@ -105,6 +105,12 @@ CLAIMED["C20"] = dict(
     technique="Lean 4 theorems over a conversion/sequencing model with generated tables; full-stack differential run of the real CLI on a simulated device",
     note="ast.literal_eval and argparse are trusted; literal_eval's outcome is an input of the model (supplied by the real function in the harness).")
 
+CLAIMED["C01"] = dict(
+    text="Theorems (Lean 4) composing the layer theorems: for EVERY settable state, device id, timestamp and counter the bytes apply() hands to the V2 transport are decoded by the independent implementation to the same id and a well-formed control frame whose body the device reads (vendor layout) as exactly that state, and on V3 the same packet under ANY key/counter/pad bytes is recovered by the independent V3 decoder; for EVERY device state, check style, id, timestamp, key, counter, pad bytes and EVERY segmentation of the reply (any number of cuts) the V3 client's reassembly queues exactly the one packet, which decrypts, decodes and is parsed to a state response whose values a fresh client exposes as exactly the device's state (V2: the whole packet); any interleaving of duplicates of the state response and ignorable frames leaves the client in the same state. Tie: the real AirConditioner.apply()/refresh() full stack on the virtual-time loop against the independent simulated device (V2 and V3 with handshake; byte-level decisions by the Lean Spec), replies delivered whole / at random cuts / byte-by-byte, with and without duplicated and unsolicited frames, random device ids, hex and bytes credentials; a second fresh client instance must report the same. Two limitations of the transport found and recorded as known findings (D10: V2 has no stream reassembly; D11: an exchange ends at the first decodable packet).",
+    design="DESIGN.md §6 C01",
+    technique="Lean 4 composition of the per-layer round-trip theorems + full-stack differential run on a simulated device",
+    note="asyncio delivery and real TCP are trusted; the known findings are reported as KNOWN-FINDING with mechanism predicates computed from the delivered segments.")
+
 NOT_YET = {
 }
 
